@@ -822,6 +822,13 @@ class Models:
     def x_inspect(self):
         return ModuleVal(('ext', 'inspect'))
 
+    # ------------------------------------------------------------------ copy (A-copy)
+    def x_copy_deepcopy(self):
+        return Builtin('copy.deepcopy', lambda ex_, a, k: deepcopy_(ex_, a[0]))
+
+    def x_copy_copy(self):
+        return Builtin('copy.copy', lambda ex_, a, k: deepcopy_(ex_, a[0], shallow=True))
+
     # ------------------------------------------------------------------ shutil (A-fs)
     def x_shutil_move(self):
         from . import fsmodel
@@ -1249,6 +1256,48 @@ class YamlModule(ExtObj):
 class PltModule(ExtObj):
     def m_close(self, ex, fig):
         ex.run.trace.append(Event('plt.close', None, [fig], 'ret'))
+
+
+def deepcopy_(ex, v, shallow=False):
+    """copy.deepcopy (A-copy): structurally equal, shares no mutable part with the original: every list / dict /
+    object cell reachable from v is duplicated; symbolic values are immutable terms (config values of kind Dyn are
+    value-copied by construction); the copy is tagged `fresh`."""
+    run = ex.run
+    memo = {}
+
+    def cp(x, depth=0):
+        if isinstance(x, Ref):
+            if x.addr in memo:
+                return memo[x.addr]
+            cell = run.cell(x)
+            if isinstance(cell, HObj) and not isinstance(cell.cls, tuple):
+                r = cell.cls.lookup('__deepcopy__' if not shallow else '__copy__')
+                if r and r[0] == 'method':
+                    res = ex.call(BoundMethod(ex.func_of(r[1]), x), [run.alloc(HDict(items={}))] if not shallow else [], {})
+                    memo[x.addr] = res
+                    return res
+            nc = cell.copy()
+            nr = run.alloc(nc)
+            memo[x.addr] = nr
+            nc.ghost['fresh'] = True
+            nc.ghost.pop('frozen', None)
+            nc.ghost.pop('borrowed', None)
+            if shallow and depth >= 0:
+                return nr
+            if isinstance(nc, (HObj, AbstractObj)):
+                nc.fields = {f: cp(y, depth + 1) for f, y in nc.fields.items()}
+                if isinstance(nc, HObj) and 'basedict' in nc.ghost:
+                    nc.ghost['basedict'] = cp(nc.ghost['basedict'], depth + 1)
+            elif isinstance(nc, HList) and nc.items is not None:
+                nc.items = [cp(y, depth + 1) for y in nc.items]
+            elif isinstance(nc, HDict) and nc.items is not None:
+                nc.items = {k_: cp(y, depth + 1) for k_, y in nc.items.items()}
+            return nr
+        if isinstance(x, tuple):
+            return tuple(cp(y, depth + 1) for y in x)
+        return x
+    run.assumed.add('A-copy')
+    return cp(v)
 
 
 class NxModule(ExtObj):
